@@ -381,6 +381,9 @@ func (e *Engine) callFunction(fn *ssa.Function, args []Value, env []Value, site 
 	if n := fn.Name(); strings.HasPrefix(n, "file_") && (strings.HasSuffix(n, "_proto_init") || strings.HasSuffix(n, "_rawDescGZIP")) {
 		return nil // protobuf type registration: not needed by any code in scope
 	}
+	if v, ok := e.generatedEnumString(fn, args); ok {
+		return v
+	}
 	if fn.Blocks == nil {
 		// synthesized wrappers have bodies after Build; truly external otherwise
 		e.abort("unsupported", "call to function without body and without model: %s (at %s)", key, e.posOf(site))
@@ -1527,3 +1530,43 @@ func (e *Engine) appendOp(a, b Value, site ssa.Instruction) Value {
 }
 
 var _ = os.Stderr
+
+// generatedEnumString models String() of protoc-gen-go enums through the
+// generated <Enum>_name table (the real body needs the protobuf type registry).
+func (e *Engine) generatedEnumString(fn *ssa.Function, args []Value) (Value, bool) {
+	if fn.Name() != "String" || fn.Signature.Recv() == nil || fn.Pkg == nil || len(args) != 1 {
+		return nil, false
+	}
+	n, ok := fn.Signature.Recv().Type().(*types.Named)
+	if !ok {
+		return nil, false
+	}
+	b, ok := n.Underlying().(*types.Basic)
+	if !ok || b.Kind() != types.Int32 {
+		return nil, false
+	}
+	g, ok := fn.Pkg.Members[n.Obj().Name()+"_name"].(*ssa.Global)
+	if !ok {
+		return nil, false
+	}
+	if !e.initAllowed(fn.Pkg) {
+		e.abort("unsupported", "String() of generated enum %s: package init not executed", n)
+	}
+	m, _ := (*e.globalCell(g)).(*Map)
+	v := T(args[0])
+	if !v.Const {
+		// symbolic enum value: fork over the table entries
+		if m != nil {
+			for i, k := range m.Keys {
+				if e.decide(Eq(T(k), v)) {
+					return m.Vals[i], true
+				}
+			}
+		}
+		return intToStr(v, true), true
+	}
+	if val, ok := e.mapLookup(m, v); ok {
+		return val, true
+	}
+	return intToStr(v, true), true
+}
